@@ -401,6 +401,11 @@ def run(ctx):
                     if o == ("variant", "Equal") or (o[0] == "other" and set(o[1]) == {"Greater", "Less"}):
                         if names == {"amount", "required"}:
                             ok = True
+                # the equality itself (a three-way match is read as the comparison each arm stands for)
+                if tag(at) == "op" and payload(at)[0] == "eq" and o is True and len(kids(at)) == 2:
+                    names = {sym.show(ix.inline(k_), 3).split(".")[-1] for k_ in kids(at)}
+                    if names == {"amount", "required"}:
+                        ok = True
             if not ok:
                 bad = bad or p
         ctx.inst("R13.2", "exact-match-semantics:%s" % short_fn(chk), bad is None and bool(ix.ok_paths(chk)), chk.where(),
